@@ -23,6 +23,7 @@
 package rules
 
 import (
+	"bytes"
 	"fmt"
 	"unicode/utf8"
 
@@ -239,6 +240,47 @@ func (_this *Context) EndChunkStringBuilder() {
 }
 
 // Validation
+
+// A comment must be spellable in a text document: valid UTF-8; a single line
+// comment ends at the first line break, so it cannot contain one; in a
+// multiline comment every nested comment must be closed, and it cannot end
+// with a slash that would merge with its own closing delimiter.
+func (_this *Context) ValidateComment(isMultiline bool, contents []byte) {
+	if !utf8.Valid(contents) {
+		panic(fmt.Errorf("comment contains invalid UTF-8 data"))
+	}
+	if !isMultiline {
+		if bytes.ContainsAny(contents, "\r\n") {
+			panic(fmt.Errorf("single line comment cannot contain a line break"))
+		}
+		return
+	}
+
+	depth := 0
+	endsWithNestedComment := false
+	for i := 0; i+1 < len(contents); {
+		switch {
+		case contents[i] == '/' && contents[i+1] == '*':
+			depth++
+			i += 2
+		case contents[i] == '*' && contents[i+1] == '/':
+			if depth == 0 {
+				panic(fmt.Errorf("multiline comment contains an unmatched comment end"))
+			}
+			depth--
+			i += 2
+			endsWithNestedComment = i == len(contents)
+		default:
+			i++
+		}
+	}
+	if depth != 0 {
+		panic(fmt.Errorf("multiline comment contains an unclosed nested comment"))
+	}
+	if len(contents) > 0 && contents[len(contents)-1] == '/' && !endsWithNestedComment {
+		panic(fmt.Errorf("multiline comment cannot end with a slash"))
+	}
+}
 
 func (_this *Context) ValidateIdentifier(data []uint8) {
 	if len(data) == 0 {
